@@ -25,8 +25,9 @@
    proofs/HtmlRenderScan.v, sections SPEC): a document is a list of [item]s
      IText s | ILt s | IComment body | ICData body | IPI pieces | IPaired name attrs ws kids
      | ISelf name attrs ws | IVoid name attrs ws | IRaw name attrs ws body
-   an attribute is white space, a name and a value  VNone | VQuoted q body | VUnquoted body | VExpr pieces
-   ({...} with nested braces and quoted strings);  [render : list item -> str] writes the text,
+   an attribute is white space, a name  NIdent n | NDirective d n (`*ngIf`, `#ref`) | NBracket o pieces
+   (`[prop]`, `(click)`, `[(ngModel)]`, `{...spread}`) and a value  VNone | VQuoted q body | VUnquoted body |
+   VExpr pieces ({...} with nested braces and quoted strings);  [render : list item -> str] writes the text,
    [forest_of d] is the record of where every element of [render d] lies (exact open / close ranges computed from
    the lengths of the rendered parts), [events d] its tag events in document order.  [item_ok special] says which
    documents: names over the scanner's XML name alphabet (name_start_char / name_char); attribute white space not
@@ -49,8 +50,7 @@
      C09_attributes_render    attributes (render_attrs l ++ ws) = the attributes as written, with exact ranges
      C09_attribute_ranges_text   get_attributes over a tag lying anywhere in a source = those tokens, shifted
      C09_attribute_tokens_slice  every such token slices the source exactly to the name and to the value as written
-   Outside the grammar (covered by correspondence + ground-truth oracle only): Angular/React attribute names
-   (`*ngIf`, `#ref`, `[prop]`, `(click)`, `{...spread}`),
+   Outside the grammar (covered by correspondence + ground-truth oracle only):
    backslash escapes inside quoted values, white space around `=` or inside close tags, unbalanced quotes in PIs.
    What is proved about the scanner for ALL strings is in props/C16Html.v. *)
 From Coq Require Import List NArith ZArith.
@@ -221,12 +221,17 @@ Print Assumptions C09_terminator_free_bodies.
 From Coq Require Import String.
 Local Notation s x := (StrLit.S x%string) (only parsing).
 Definition c09_example_doc : list item :=
-  let at_ n v := mkDAttr (s " ") n v in
+  let at_ n v := mkDAttr (s " ") (NIdent n) v in
   [ IPI (map PChar (s "xml v=") ++ [PQuoted 34 (s "?>")]);
     IComment (s " <b> ");
     IPaired (s "ul") [at_ (s "class") (VQuoted 34 (s "a>b")); at_ (s "data-x") (VUnquoted (s "1"));
                       at_ (s "on") (VExpr [EChar 102; EChar 40; EQuoted 34 (s "}"); ENested [EChar 62]; EChar 41]);
-                      at_ (s "hidden") VNone] (s " ")
+                      at_ (s "hidden") VNone;
+                      mkDAttr (s " ") (NDirective 42 (s "ngIf")) (VQuoted 34 (s "a>b"));
+                      mkDAttr (s " ") (NDirective 35 (s "ref")) VNone;
+                      mkDAttr (s " ") (NBracket 91 [ENested [EChar 97]; EChar 46; EChar 62]) (VUnquoted (s "1"));
+                      mkDAttr (s " ") (NBracket 40 [EChar 99; ENested []]) (VQuoted 34 (s "f()"));
+                      mkDAttr (s " ") (NBracket 123 (map EChar (s "...p"))) VNone] (s " ")
       [ IText (s "text");
         IPaired (s "li") [at_ (s "id") (VQuoted 39 (s "x"))] []
           [ IVoid (s "br") [] []; ISelf (s "img") [at_ (s "src") (VQuoted 34 (s "/"))] (s " ") ];
@@ -238,13 +243,13 @@ Definition c09_example_doc : list item :=
 Example C09_text_nonvacuous :
   doc_ok default_opts c09_example_doc = true /\
   render c09_example_doc =
-    s ("<?xml v=""?>""?><!-- <b> --><ul class=""a>b"" data-x=1 on={f(""}""{>})} hidden >text<li id='x'><br>" ++
+    s ("<?xml v=""?>""?><!-- <b> --><ul class=""a>b"" data-x=1 on={f(""}""{>})} hidden *ngIf=""a>b"" #ref [[a].>]=1 (c())=""f()"" {...p} >text<li id='x'><br>" ++
               "<img src=""/"" /></li><![CDATA[<i>]]><script type=""text/javascript"">if (a<b) '</div>'</script>" ++
               "<script type=""text/x-template""><p></p></script></ul><!DOCTYPE html> a < b") /\
   map (fun e => (ev_name e, ev_start e)) (events c09_example_doc) =
-    [(s "ul", 26); (s "li", 78); (s "br", 89); (s "img", 93); (s "li", 108);
-     (s "script", 128); (s "script", 176); (s "script", 185); (s "p", 216);
-     (s "p", 219); (s "script", 223); (s "ul", 232)]%N /\
-  option_map b_name (innermost (forest_of c09_example_doc) 90) = Some (s "br") /\
-  map b_name (enclosing (forest_of c09_example_doc) 221) = [s "p"; s "script"; s "ul"].
+    [(s "ul", 26); (s "li", 124); (s "br", 135); (s "img", 139); (s "li", 154);
+     (s "script", 174); (s "script", 222); (s "script", 231); (s "p", 262);
+     (s "p", 265); (s "script", 269); (s "ul", 278)]%N /\
+  option_map b_name (innermost (forest_of c09_example_doc) 136) = Some (s "br") /\
+  map b_name (enclosing (forest_of c09_example_doc) 267) = [s "p"; s "script"; s "ul"].
 Proof. vm_compute. repeat split. Qed.
